@@ -12,6 +12,7 @@ import itertools
 
 import numpy as np
 import scipp as sc
+from scippneutron.chopper import filtering as _filtering
 from scippneutron.chopper.filtering import collapse_plateaus, filter_in_phase, find_plateaus
 
 from ref import series
@@ -30,22 +31,43 @@ ASSUMPTIONS = [
     'scipp (binning, slicing, comparison) and numpy are the trusted base',
     'slope exactly equal to atol counts as within the tolerance (|slope| <= atol), as in the code and DESIGN C19',
     'a RuntimeError from the total-drift guard is counted and not judged (the property constrains only calls that return)',
+    'uuid.uuid4 inside chopper.filtering is replaced by a fixed label during the short-series enumeration (scipp allows only '
+    '2^16 distinct dimension labels per process and find_plateaus consumes one per call); long series use the real uuid',
     'in-phase: judged only where the reference-relative and the target-relative reading of "relative tolerance" agree with '
     'a margin of 9/8; |f/ref| and |ref/f| below 1/(2 rtol)',
     'collapse: only containment of the points in [lo, hi) and the mean are demanded, not tightness of the interval',
 ]
 BOUND = {
-    'quick': 'all series of 2..5 points (8 880 series, 113 742 find_plateaus calls incl. all min_n_points and dtypes); long series; in-phase tables',
-    'thorough': 'all series of 2..6 points (55 536 series more); same long series and tables',
+    'quick': 'all series of 2..5 points (7 464 series x 3 coordinate dtypes, 109 656 find_plateaus calls incl. all min_n_points); long series; in-phase tables',
+    'thorough': 'all series of 2..6 points: 6-point series with every position of the long coordinate step for float64, positions none / third for int64 and datetime64; same long series and tables',
 }
 REQUIRED_CLASSES = [
     'returned', 'guard_fired', 'plateaus_0', 'plateaus_1', 'plateaus_2', 'plateaus_3plus', 'size_filter_dropped_run',
     'step_at_tolerance_inside', 'step_just_above_splits', 'long_dx_rescues_step', 'dtype_float64', 'dtype_int64',
-    'dtype_datetime64', 'collapse_ok', 'collapse_empty', 'min_n_as_variable', 'long_series',
+    'dtype_datetime64', 'collapse_ok', 'collapse_empty', 'min_n_as_variable', 'long_series', 'real_uuid_label',
     'inphase_keep', 'inphase_drop', 'inphase_dontcare', 'inphase_empty_result', 'inphase_all_kept', 'inphase_int_dtype',
     'inphase_negative', 'inphase_zero',
 ]
 CHUNK = 4
+
+
+class _FixedUuid:
+    """Stand-in for the ``uuid`` module inside chopper.filtering during the short-series enumeration.
+
+    find_plateaus names a temporary coordinate / dimension ``str(uuid.uuid4())``.  scipp keeps every dimension label
+    ever used in a process-wide table of 2^16 entries, so the 64 536th call of find_plateaus in one process raises
+    ``RuntimeError: Exceeded maximum number of different dimension labels`` (reproduced outside the harness; reported
+    separately, it is not part of this property).  The label is never visible in the result (DESIGN section 4), so the
+    harness owns this source of nondeterminism from outside, like the clock of C12: one fixed label for the bulk
+    enumeration; the long-series cases run with the real ``uuid``.
+    """
+
+    @staticmethod
+    def uuid4():
+        return 'verif-c19-group-5f1c0a52'
+
+
+_REAL_UUID = _filtering.uuid
 
 ATOL = 0.125  # Hz/s, dyadic
 JUST = ATOL * (1 + 2.0**-20)  # exactly representable
@@ -72,6 +94,8 @@ def cases(tier):
                     for h in range(6):
                         out.append({'kind': 'short', 'n': n, 'dtype': dt, 'dxpos': dxpos, 'head': [h]})
                 else:
+                    if dt != 'float64' and dxpos not in (-1, 2):
+                        continue  # 6 points: the other positions of the long coordinate step only for float64
                     for h in itertools.product(range(6), repeat=2):
                         out.append({'kind': 'short', 'n': n, 'dtype': dt, 'dxpos': dxpos, 'head': list(h)})
     for name in ('alternating', 'barely_split', 'drift', 'variances', 'staircase'):
@@ -311,6 +335,8 @@ def run_long(case, rec):
     dt = case['dtype']
     rec.cls('dtype_' + dt)
     rec.cls('long_series')
+    if _filtering.uuid is _REAL_UUID:
+        rec.cls('real_uuid_label')
     da = make_da(xs, ys, dt, variances)
     runs = series.maximal_runs(xs, ys, atol)
     for m in (1, 2, 3, 5, 8, 41, 100, 342, 500):
@@ -413,7 +439,11 @@ def run_inphase_int(case, rec):
 def run_case(case, rec):
     kind = case['kind']
     if kind == 'short':
-        run_short(case, rec)
+        _filtering.uuid = _FixedUuid
+        try:
+            run_short(case, rec)
+        finally:
+            _filtering.uuid = _REAL_UUID
     elif kind == 'long':
         run_long(case, rec)
     elif kind == 'inphase':
